@@ -58,7 +58,24 @@ def molecules(ctx, kind, n):
     return out
 
 
-def synthetic(ctx, lib, mols):
+def matching_pattern(sch, mols):
+    """index of a centre pattern that matches an atom of one of the molecules (chosen with the package's own matcher; only
+    used to build a scheme in which the two-patterns-on-one-atom failure is due)"""
+    from rdkit import Chem
+    for smi in mols[:6]:
+        m = S.prepare(smi)
+        if m is None:
+            continue
+        for i, pat in enumerate(sch.patterns):
+            try:
+                if pat['connectivity'].GetQueryMatches(Chem.Mol(m)):
+                    return i
+            except Exception:
+                continue
+    return None
+
+
+def synthetic(ctx, lib, mols, mode=None):
     """a scheme derived from a shipped one: a pattern dropped / duplicated, or extra (multi-target, fractional, chain-free)
     remap rules on names that actually occur in the decompositions of the sample molecules"""
     from pgradd.GroupAdd.Scheme import GroupAdditivityScheme
@@ -66,11 +83,21 @@ def synthetic(ctx, lib, mols):
     rng = ctx.rng
     sch = lib.scheme
     pats = list(sch.patterns)
-    mode = rng.choice(['drop', 'dup', 'remap', 'remap', 'remap'])
+    mode = mode or rng.choice(['drop', 'dup', 'remap', 'remap', 'remap'])
     if mode == 'drop' and len(pats) > 3:
         del pats[rng.randrange(len(pats))]
     elif mode == 'dup':
         pats.insert(rng.randrange(len(pats)), dict(rng.choice(pats)))
+    elif mode in ('dup-last', 'dup-first'):
+        # a second entry matching an atom that already has its centre, as the very last / very first pattern: the
+        # decomposition must fail wherever in the file the overlapping entry stands
+        i = matching_pattern(sch, mols)
+        if i is not None:
+            twin = dict(pats[i], center_name='Twin')
+            if mode == 'dup-last':
+                pats.append(twin)
+            else:
+                pats.insert(0, twin)
     remaps = dict(sch.remaps)
     if mode == 'remap':
         seen = set()
@@ -234,9 +261,9 @@ def run(ctx):
             if ctx.time_left() < 120:
                 break
         # synthetic schemes derived from this one
-        for _ in range(ctx.n(3, 30)):
+        for forced in ['dup-last', 'dup-first'] + [None] * ctx.n(3, 30):
             sample = ctx.rng.sample(mols, min(len(mols), ctx.n(8, 20)))
-            lib2, mode = synthetic(ctx, lib, sample)
+            lib2, mode = synthetic(ctx, lib, sample, forced)
             for smi in sample:
                 check_one(ctx, '%s~%s' % (name, mode), lib2, smi, batch, full)
         # the shipped scheme with probe descriptors, on the molecules that have rings or weak bonds
